@@ -355,12 +355,39 @@ def _diff_walk(nodes, got, exp, nm):
 
 
 # ---------------------------------------------------------------------------
+def _builtin_ne(it, a, b):
+    """`a != b` when no class of a's family defines __ne__: a plain object
+    inverts __eq__; a dict / OrderedDict subclass gets the *builtin's* own
+    comparison (OrderedDict: items in order; never the overridden __eq__)."""
+    if isinstance(a, Obj) and a.items is not None:
+        if isinstance(b, Obj) and b.items is not None:
+            return list(a.items.items()) != list(b.items.items())
+        if isinstance(b, dict):
+            return dict(a.items) != b
+        return True
+    r = _eq(it, a, b)
+    return (not r) if isinstance(r, bool) else r
+
+
+def _ne(it, a, b):
+    if isinstance(a, Obj) and a.cls is not None and it.model.lookup_method(a.cls, "__ne__") is not None:
+        r = it.call(it.getattr(a, "__ne__"), [b], {})
+        return it.truth(r) if not (isinstance(r, NativeObj) and r.name == "NotImplemented") else "NotImplemented"
+    return _builtin_ne(it, a, b)
+
+
 def _eq(it, a, b):
     f = it.getattr(a, "__eq__")
     r = it.call(f, [b], {})
     if isinstance(r, Unknown):
         raise Unsupported("__eq__ returned an unknown value")
-    return it.truth(r) if not (isinstance(r, NativeObj) and r.name == "NotImplemented") else "NotImplemented"
+    res = it.truth(r) if not (isinstance(r, NativeObj) and r.name == "NotImplemented") else "NotImplemented"
+    if isinstance(res, bool) and _NE_CHECK[0] is not None:
+        _NE_CHECK[0](it, a, b, res)
+    return res
+
+
+_NE_CHECK = [None]
 
 
 def _mutate(it, root, how):
@@ -432,6 +459,19 @@ def explore_eq(ctx):
 
     def note(law, desc, **d):
         fails.append((law, desc, d))
+
+    def ne_check(it, a, b, eq_result):
+        _NE_CHECK[0] = None         # no recursion through nested comparisons
+        try:
+            r = _ne(it, a, b)
+            if isinstance(r, bool) and r == eq_result:
+                note("ne", f"`!=` is not the negation of `==`: both answer {r} for the same pair of "
+                     f"components", left=repr(a), right=repr(b)[:80])
+        except AbsRaise as e:
+            note("ne", f"`!=` raises {e.cls_name}", left=repr(a))
+        finally:
+            _NE_CHECK[0] = ne_check
+    _NE_CHECK[0] = ne_check
 
     for sh, kinds, lays in trees(ctx.thorough):
         it = TreeInterp(model)
@@ -514,6 +554,8 @@ def explore_eq(ctx):
                 break
     except Unsupported as e:
         raise AnalysisError(f"__eq__ leaves the abstract interface: {e}")
+    finally:
+        _NE_CHECK[0] = None
     return n, fails
 
 
@@ -536,7 +578,7 @@ LAWS = {
                    "distinguishes list order of a multi-valued property", "distinguishes an extra property",
                    "distinguishes a dropped subcomponent", "distinguishes an extra subcomponent",
                    "distinguishes the multiset of subcomponents", "distinguishes the component kind",
-                   "False (no exception) for foreign operands"],
+                   "False (no exception) for foreign operands", "!= is the negation of =="],
 }
 
 
@@ -552,6 +594,7 @@ ALIAS = {
     "distinguishes multiset": "distinguishes the multiset of subcomponents",
     "distinguishes kind": "distinguishes the component kind",
     "total": "False (no exception) for foreign operands",
+    "ne": "!= is the negation of ==",
 }
 
 
@@ -588,6 +631,15 @@ def report(ctx, rule, fn, what, loc, floor):
 # ---------------------------------------------------------------------------
 # C18: used / missing time zone ids and add_missing_timezones
 KNOWN_ZONES = {"Europe/Berlin", "America/New_York", "Z1"}
+# ids the provider resolves to another zone (Windows names, posix/ prefixes): tzp.timezone()
+# answers with the *same* tzinfo object as for the target, knows_timezone_id() says no
+ALIASES = {"W. Europe Standard Time": "Europe/Berlin", "posix/Europe/Berlin": "Europe/Berlin",
+           "Eastern Standard Time": "America/New_York"}
+
+
+def _resolves(tzid):
+    t = tzid.strip("/")
+    return t in KNOWN_ZONES or t in ALIASES
 
 
 class TzidInterp(TreeInterp):
@@ -612,9 +664,16 @@ class TzidInterp(TreeInterp):
             from .absint import TZ
             # contract of TZP.timezone: the id is looked up in its clean form
             # (leading/trailing '/' stripped) and as given
-            return Native("tzp.timezone", lambda i, a, k:
-                          TZ("zone", self._str(a[0]).strip("/"))
-                          if self._str(a[0]).strip("/") in KNOWN_ZONES else None)
+            def timezone(i, a, k):
+                t = self._str(a[0]).strip("/")
+                t = ALIASES.get(t, t)
+                if t not in KNOWN_ZONES:
+                    return None
+                zones = self.__dict__.setdefault("_zone_objects", {})
+                if t not in zones:
+                    zones[t] = TZ("zone", t, "zoneinfo")
+                return zones[t]          # one tzinfo object per zone, as a provider's cache gives
+            return Native("tzp.timezone", timezone)
         if o.name == "tzp" and name == "knows_timezone_id":
             return Native("tzp.knows", lambda i, a, k: self._str(a[0]).strip("/") in KNOWN_ZONES)
         if o.name == "tzp" and name == "clean_timezone_id":
@@ -656,6 +715,10 @@ TZ_CASES = [
     dict(name="unclean id", comps=[("cal.Event", [("DTSTART", "/Europe/Berlin"), ("DTEND", "Z1")])],
          zones=[]),
     dict(name="unclean id, clean zone present", comps=[("cal.Event", [("DTSTART", "/Z1")])], zones=["Z1"]),
+    dict(name="alias after its target", comps=[("cal.Event", [("DTSTART", "Europe/Berlin"),
+                                                                ("DTEND", "W. Europe Standard Time")]),
+                                               ("cal.Todo", [("DUE", "posix/Europe/Berlin")])], zones=[]),
+    dict(name="alias only", comps=[("cal.Event", [("DTSTART", "Eastern Standard Time")])], zones=[]),
     dict(name="third-level nesting", comps=[("cal.Component", [], [("cal.Event", [], [
         ("cal.Alarm", [("TRIGGER", "Z1")])])])], zones=[]),
 ]
@@ -740,7 +803,7 @@ def explore_tzids(ctx):
                 it.call(it.getattr(cal, "add_missing_timezones"), [], {})
                 zones = [c for c in cal.attrs["subcomponents"] if c.cls.name == "Timezone"]
                 ids = [it._str(z.items["TZID"]) for z in zones if "TZID" in z.items]
-                known = {u for u in used if u.strip("/") in KNOWN_ZONES}
+                known = {u for u in used if _resolves(u)}
                 want_added = sorted((used - present) & known)
                 added = [it._str(c.items.get("TZID")) for c in cal.attrs["subcomponents"][before:]]
                 if sorted(added) != want_added:
